@@ -177,7 +177,7 @@ class C01(Prop):
             if i % 5 == 4:
                 f, bad = self.BREAKS[(i // 5) % len(self.BREAKS)]
                 args["break"] = {"field": f, "bad": bad}       # failed dump -> repair -> dump
-            if i % 13 == 6:
+            if i % 9 == 6:
                 args["preload"] = g.spec()                     # the text is loaded into an object that already holds a compose
             yield {"op": "roundtrip", "args": args}
 
@@ -316,6 +316,11 @@ class C01(Prop):
                     try:
                         c4.loads(text)
                         out["preload"] = {"ok": F.snap(c4)}
+                        try:
+                            c4.loads(text)                      # the same text once more
+                            out["preload_twice"] = {"ok": F.snap(c4), "text_same": c4.dumps() == text}
+                        except Exception as e:  # noqa
+                            out["preload_twice"] = checklib.err_class(e)
                     except Exception as e:  # noqa
                         out["preload"] = checklib.err_class(e)
                 except Exception as e:  # noqa
@@ -373,6 +378,9 @@ class C01(Prop):
             if doc is not None:
                 reqs.append({"op": "composeinfo_loads", "args": {"doc": doc}})
                 reqs.append({"op": "composeinfo_redump", "args": {"doc": doc}})
+                if a.get("preload") is not None and typed_ok(a["preload"]):
+                    # the same document loaded into an object that already holds the preload compose
+                    reqs.append({"op": "composeinfo_load_into", "args": {"held": F.strip_parent(F.norm(a["preload"])), "doc": doc}})
         return reqs
 
     def model_result(self, case, outs):
@@ -384,6 +392,8 @@ class C01(Prop):
         if len(outs) > 2:
             res["loads"] = outs[2]
             res["redump"] = outs[3]
+        if len(outs) > 4:
+            res["preload"] = outs[4]
         return res
 
     def compare(self, case, real_out, model_out):
@@ -399,7 +409,9 @@ class C01(Prop):
                 parsed = "<the written text is not a JSON document>"
             if parsed != model_out["doc"]:
                 diffs["doc"] = "serialize() value differs from the parsed real text"
-        for k in ("loads", "redump"):
+        for k in ("loads", "redump", "preload"):
+            if k == "preload" and not ("preload" in model_out and "skip" not in (real_out.get("preload") or {"skip": 1})):
+                continue
             if k in real_out or k in model_out:
                 if checklib.canon(real_out.get(k)) != checklib.canon(model_out.get(k)):
                     diffs[k] = (real_out.get(k), model_out.get(k))
@@ -515,6 +527,11 @@ class C01(Prop):
                     facts["rest_equal"] = rest == want
             if not ok:
                 return {"observed": facts, "required": "loads() into an object that already holds a compose gives the loaded description",
+                        "kind": "reload-into-nonempty"}
+            tw = real_out.get("preload_twice")
+            if tw is not None and not ("ok" in tw and F.canon(tw["ok"]) == want and tw.get("text_same")):
+                return {"observed": {"second_load_of_the_same_text": tw if "err" in tw else first_diff(F.canon(tw["ok"]), want) or {"text_same": tw.get("text_same")}},
+                        "required": "the same text can be loaded again into the object and gives the same description and the same text",
                         "kind": "reload-into-nonempty"}
         # writing must not alter the description itself beyond the documented is_layered forcing
         aft = real_out.get("after")
